@@ -48,8 +48,11 @@ Selections ==
        LET srcs == FlatSources(IF G = "G7i" THEN "int" ELSE "obj")
        IN Cat([j \in 1..Len(srcs) |-> << SelF("entity", <<Flat(1)>>, srcs[j]), SelF("set_of", <<V(1), Flat(1)>>, srcs[j]),
                                          SelF("set_of", <<Flat(1), V(1)>>, srcs[j]), SelF("set_of", <<Flat(1)>>, srcs[j]) >>])
-    [] G = "G7c" -> << [desc |-> "entity", sel |-> <<V(2)>>, flats |-> <<>>, bound |-> <<1>>],
-                       [desc |-> "set_of", sel |-> <<V(2)>>, flats |-> <<>>, bound |-> <<1>>] >>
+          \* two flattened expressions of one parent, without the parent: both stay correlated through it
+          \o << [desc |-> "set_of", sel |-> <<Flat(1), Flat(2)>>, flats |-> <<srcs[1], srcs[2]>>, bound |-> <<>>],
+                [desc |-> "set_of", sel |-> <<Flat(2), V(1), Flat(1)>>, flats |-> <<srcs[1], srcs[2]>>, bound |-> <<>>] >>
+    [] G = "G7c" -> << [desc |-> "entity", sel |-> <<V(2)>>, flats |-> <<At(V(1), "pairs")>>, bound |-> <<1>>, boundflats |-> <<1>>],
+                       [desc |-> "set_of", sel |-> <<V(2)>>, flats |-> <<At(V(1), "pairs")>>, bound |-> <<1>>, boundflats |-> <<1>>] >>
 
 VARIABLES stack, done
 vars == <<stack, done>>
@@ -84,8 +87,16 @@ Finish(s) == /\ done = <<>> /\ Len(stack) = 1
                            THEN [desc |-> "entity", sel |-> <<>>, flats |-> <<>>, bound |-> <<>>, cond |-> Top,
                                  head |-> Selections[s].head]
                            ELSE [desc |-> Selections[s].desc, sel |-> Selections[s].sel, flats |-> Selections[s].flats,
-                                 bound |-> Selections[s].bound, cond |-> Top]>>
+                                 bound |-> Selections[s].bound, cond |-> Top,
+                                 boundflats |-> IF "boundflats" \in DOMAIN Selections[s] THEN Selections[s].boundflats ELSE <<>>]>>
              /\ stack' = <<>>
+
+\* a query without any condition: entity(x) / set_of([...]) alone
+FinishBare(s) == /\ G \in {"G12", "G7i", "G7o"} /\ ~NeedNot
+                 /\ done = <<>> /\ stack = <<>>
+                 /\ done' = <<[desc |-> Selections[s].desc, sel |-> Selections[s].sel, flats |-> Selections[s].flats,
+                               bound |-> Selections[s].bound, cond |-> TrueC, boundflats |-> <<>>]>>
+                 /\ stack' = <<>>
 
 Next == \/ \E j \in 1..Len(Leaves) : PushLeaf(j) /\ (G = "G3" => ~(stack # <<>> /\ HasForAll(Top)))
         \/ ApplyNot("fn") /\ (G = "G3" => ~HasForAll(Top))
@@ -97,6 +108,7 @@ Next == \/ \E j \in 1..Len(Leaves) : PushLeaf(j) /\ (G = "G3" => ~(stack # <<>> 
                                             [] ue = 4 -> At(SubE(2, CmpC("ne", At(V(2), "m"), LitI(0)), "an"), "n"))
         \/ \E j \in 1..Len(OuterG3), side \in {"l", "r"} : PushOuter(j, side)
         \/ \E s \in 1..Len(Selections) : Finish(s)
+        \/ \E s \in 1..Len(Selections) : FinishBare(s)
 Spec == Init /\ [][Next]_vars
 
 \* export every finished program (used with -workers 1)
